@@ -252,6 +252,7 @@ struct Agg {
     evaluations: u64,
     inner: u64,
     labels: BTreeMap<String, u64>,
+    counters: BTreeMap<String, u64>,
     discards: BTreeMap<String, u64>,
     nontrivial_hashes: HashSet<u64>,
     inner_hashes: HashSet<u64>,
@@ -463,7 +464,11 @@ pub fn run_check(check: &'static dyn Check, opts: RunOpts) -> i32 {
                 exit = 2;
             }
             for (l, f) in check.floors() {
-                let c = *agg.labels.get(l).unwrap_or(&0) as f64 / ev;
+                let c = if let Some(cn) = l.strip_prefix('#') {
+                    *agg.counters.get(cn).unwrap_or(&0) as f64 / agg.inner.max(1) as f64
+                } else {
+                    *agg.labels.get(l).unwrap_or(&0) as f64 / ev
+                };
                 if c < f {
                     println!("INCONCLUSIVE property={id} generator unhealthy: class '{l}' at {:.2}% < floor {:.2}%", c * 100.0, f * 100.0);
                     notes.push(format!("floor missed: {l}"));
@@ -479,6 +484,9 @@ pub fn run_check(check: &'static dyn Check, opts: RunOpts) -> i32 {
     if std::env::var("VERIF_VERBOSE").is_ok() {
         for (l, c) in &agg.labels {
             println!("  label {l}: {c} ({:.1}%)", *c as f64 * 100.0 / agg.evaluations.max(1) as f64);
+        }
+        for (l, c) in &agg.counters {
+            println!("  counter {l}: {c} ({:.1}% of inner)", *c as f64 * 100.0 / agg.inner.max(1) as f64);
         }
     }
     println!(
@@ -512,6 +520,11 @@ fn absorb(a: &mut Agg, idx: u64, v: &Value, tape: Vec<u8>) {
     for l in v["labels"].as_array().into_iter().flatten() {
         if let Some(s) = l.as_str() {
             *a.labels.entry(s.to_string()).or_insert(0) += 1;
+        }
+    }
+    if let Some(o) = v["ctr"].as_object() {
+        for (k, c) in o {
+            *a.counters.entry(k.clone()).or_insert(0) += c.as_u64().unwrap_or(0);
         }
     }
     if v["nontrivial"].as_bool() == Some(true) {
@@ -566,6 +579,7 @@ fn write_evidence(check: &dyn Check, opts: &RunOpts, a: &Agg, t0: Instant, extra
             "rule": check.rule(),
             "samples": if samples.is_empty() { vec![json!("(no sample rendered)")] } else { samples },
             "labels": a.labels,
+            "inner_counters": a.counters,
             "discards": a.discards,
             "excluded_known": a.known_hits,
             "failing_cases": a.failing_cases,
@@ -779,7 +793,7 @@ pub fn replay(check: &'static dyn Check, path: &Path, tier: Tier, seed: u64) -> 
         println!("VIOLATION property={} replay={}", check.id(), path.display());
         for (s, m) in fails {
             println!("  signature: {s}");
-            for l in m.lines().take(40) {
+            for l in m.lines().take(4000) {
                 println!("  | {l}");
             }
         }
